@@ -501,6 +501,12 @@ func init() {
 	reg("runtime.Caller", func(m *Machine, fn *ssa.Function, a []Value) Value {
 		return Tuple{m.S.Const(64, 0), ConcStr("caller.go", m.S), m.S.Const(64, 1), m.S.True}
 	})
+	// runtime.Gosched: a scheduling point that must hand over to another runnable thread if there
+	// is one (a spin loop makes progress only when somebody else runs)
+	reg("runtime.Gosched", func(m *Machine, fn *ssa.Function, a []Value) Value {
+		m.yieldToOther("Gosched")
+		return nil
+	})
 	reg("runtime.KeepAlive", func(m *Machine, fn *ssa.Function, a []Value) Value { return nil })
 	reg("(syscall.Errno).Error", func(m *Machine, fn *ssa.Function, a []Value) Value {
 		t := a[0].(*Term)
